@@ -2,6 +2,8 @@ package main
 
 import (
 	"fmt"
+	"go/token"
+	"go/types"
 	"sort"
 	"strings"
 
@@ -9,11 +11,11 @@ import (
 )
 
 func init() {
-	register("F10.bsi", "a found-set may be the index's own existence bitmap (GetExistenceBitmap returns it, and the library passes it itself): a BSI mutator that removes its found-set from the existence bitmap (eBM.AndNot / Xor with the parameter) does so only after its last other use of that parameter, and not concurrently with one", ruleF10BSI)
+	register("F10.bsi", "a found-set may be the index's own existence bitmap (GetExistenceBitmap returns it, and the library passes it itself): a BSI mutator that removes its found-set from the existence bitmap (eBM.AndNot / Xor with the parameter) does so only after its last other use of that parameter, and not concurrently with one; x.Add(x) never reads the operand on the path where it is the receiver", ruleF10BSI)
 }
 
 func ruleF10BSI(p *Prog) *RuleResult {
-	res := newResult("F10.bsi", ruleDoc["F10.bsi"], 2)
+	res := newResult("F10.bsi", ruleDoc["F10.bsi"], 4)
 	var fns []*ssa.Function
 	for _, f := range p.sourceFns() {
 		pp := fnPkgPath(f)
@@ -154,6 +156,60 @@ func ruleF10BSI(p *Prog) *RuleResult {
 			} else {
 				res.ok(c, p.ipos(kill.ins), "last use of the parameter")
 			}
+		}
+	}
+	// in-place binary operations of an index with an index: x.Add(x) (doubling) is ordinary use, and the
+	// carries rewrite the planes that are still to be read — the operand is not read on the path where it
+	// is the receiver
+	for _, f := range fns {
+		if f.Name() != "Add" || len(f.Params) != 2 || !types.Identical(f.Params[0].Type(), f.Params[1].Type()) {
+			continue
+		}
+		c := fname(f) + "|self-application guarded"
+		var guard *ssa.If
+		differ := 0
+		for _, b := range f.Blocks {
+			ifi, ok := b.Instrs[len(b.Instrs)-1].(*ssa.If)
+			if !ok {
+				continue
+			}
+			bo, ok := ifi.Cond.(*ssa.BinOp)
+			if !ok || (bo.Op != token.EQL && bo.Op != token.NEQ) {
+				continue
+			}
+			if (bo.X == ssa.Value(f.Params[0]) && bo.Y == ssa.Value(f.Params[1])) || (bo.Y == ssa.Value(f.Params[0]) && bo.X == ssa.Value(f.Params[1])) {
+				guard = ifi
+				if bo.Op == token.EQL {
+					differ = 1
+				}
+			}
+		}
+		if guard == nil {
+			res.bad(c, p.pos(f.Pos()), "no test of the operand against the receiver: b.Add(b) reads planes that its own carries have already rewritten (and appended to) — the call never returns")
+			continue
+		}
+		bad := ""
+		if refs := f.Params[1].Referrers(); refs != nil {
+			for _, r := range *refs {
+				if r == guard.Cond.(ssa.Instruction) {
+					continue
+				}
+				if _, isPhi := r.(*ssa.Phi); isPhi {
+					continue // joined with the snapshot taken on the other side
+				}
+				if _, isDbg := r.(*ssa.DebugRef); isDbg {
+					continue
+				}
+				d := guard.Block().Succs[differ]
+				if !(len(d.Preds) == 1 && d.Dominates(r.Block())) {
+					bad = "the operand is read at " + p.ipos(r) + " also on the path where it is the receiver itself"
+				}
+			}
+		}
+		if bad != "" {
+			res.bad(c, p.ipos(guard), bad)
+		} else {
+			res.ok(c, p.ipos(guard), "the raw operand is read only where it differs from the receiver (a snapshot stands in for it otherwise)")
 		}
 	}
 	return res
